@@ -22,6 +22,7 @@ package compilex
 
 import (
 	"fmt"
+	"sort"
 	"strings"
 )
 
@@ -115,7 +116,9 @@ type scope struct {
 	kids     []*scope
 	all      []*scope // root only: every scope of the tree, outer first
 	mentions map[string]bool
-	shared   map[bkey]bool // root only
+	shared   map[bkey]bool    // root only
+	finals   map[string]value // root only: single-assignment constants (nil = no propagation pass)
+	live     bool             // reached by the last analysis (not inside a skipped dead branch)
 }
 
 type bkey struct {
@@ -275,10 +278,17 @@ func (r *renderer) nested(s *scope, open, close string) string {
 
 // analyze computes parent/kids/mentions for the tree rooted at the function
 // scope f and, recursively, for nested function literals (separate trees).
+// skipDeadBranches switches the analysis to what the scopes look like after
+// the compiler's constant propagation removed `if` branches whose condition
+// is a compile-time constant (only used to recognise the programs of known
+// finding C29 dead-branch-mention-unshares; the model itself uses the text).
+var skipDeadBranches bool
+
 func analyze(f *scope) {
 	f.parent, f.root = nil, f
 	f.all = nil
 	f.shared = map[bkey]bool{}
+	f.finals = finalConstants(f)
 	collect(f, f)
 	for _, s := range f.all {
 		for name := range s.mentions {
@@ -292,6 +302,7 @@ func analyze(f *scope) {
 func collect(s, root *scope) {
 	s.root = root
 	s.kids = nil
+	s.live = true
 	s.mentions = map[string]bool{}
 	root.all = append(root.all, s)
 	for _, p := range s.params {
@@ -340,6 +351,18 @@ func collect(s, root *scope) {
 			case *sCall:
 				ex(st.c)
 			case *sIf:
+				if skipDeadBranches {
+					// what is left after the compiler's constant propagation
+					// (finding C29 dead-branch-mention-unshares)
+					if v, known := staticCond(st.cond, root.finals); known {
+						if v {
+							sts(st.then)
+						} else {
+							sts(st.els)
+						}
+						break
+					}
+				}
 				ex(st.cond)
 				sts(st.then)
 				sts(st.els)
@@ -1016,4 +1039,212 @@ func runModel(root *scope) (o outcome, f facts, disc string) {
 		}
 	}
 	return outcome{val: canonModel(v)}, f, ""
+}
+
+// ---------------------------------------------------------------- constant propagation (for the known-finding predicate only)
+
+// constOf: the value of a right-hand side that the parser sees as a constant.
+func constOf(e expr) (value, bool) {
+	switch e := e.(type) {
+	case *eInt:
+		return vInt(e.v), true
+	case *eStr:
+		return &vStr{s: e.s}, true
+	case *eFunc:
+		return &vFunc{e.s}, true // a function literal is a compile-time constant
+	case *eBin:
+		l, ok1 := e.l.(*eInt)
+		r, ok2 := e.r.(*eInt)
+		if ok1 && ok2 {
+			if e.op == "+" {
+				return vInt(l.v + r.v), true
+			}
+			return vInt(l.v - r.v), true
+		}
+	}
+	return nil, false
+}
+
+// finalConstants mirrors Parser.final / processFinal as documented in
+// docs/index.md ("final variables, ones that are assigned once and never
+// modified"): locals of function f assigned exactly once with `=` to a
+// constant and not modified otherwise (parameters, ++ += etc., loop and catch
+// variables, any modification inside a block). nil if there is none (then the
+// propagation pass does not run at all).
+func finalConstants(f *scope) map[string]value {
+	count := map[string]int{}
+	val := map[string]value{}
+	notConst := map[string]bool{}
+	disq := map[string]bool{}
+	for _, p := range f.params {
+		disq[p] = true
+	}
+	var walk func(ss []stmt, inBlock bool)
+	var ex func(e expr, inBlock bool)
+	ex = func(e expr, inBlock bool) {
+		switch e := e.(type) {
+		case *eBlock:
+			for _, p := range e.s.params {
+				disq[p] = true
+			}
+			walk(e.s.body, true)
+			ex(e.s.final, true)
+		case *eCall:
+			for _, a := range e.args {
+				ex(a, inBlock)
+			}
+		}
+	}
+	walk = func(ss []stmt, inBlock bool) {
+		for _, st := range ss {
+			switch st := st.(type) {
+			case *sAssign:
+				if inBlock {
+					disq[st.name] = true
+				} else {
+					count[st.name]++
+					if v, ok := constOf(st.e); ok {
+						val[st.name] = v
+					} else {
+						notConst[st.name] = true
+					}
+				}
+				ex(st.e, inBlock)
+			case *sOpAssign:
+				disq[st.name] = true
+			case *sIncr:
+				disq[st.name] = true
+			case *sCall:
+				ex(st.c, inBlock)
+			case *sIf:
+				walk(st.then, inBlock)
+				walk(st.els, inBlock)
+			case *sFor:
+				disq[st.v] = true
+				walk(st.body, inBlock)
+			case *sWhile:
+				walk(st.body, inBlock)
+			case *sTry:
+				walk(st.body, inBlock)
+				if st.catchVar != "" {
+					disq[st.catchVar] = true
+				}
+				walk(st.catchBody, inBlock)
+			}
+		}
+	}
+	walk(f.body, false)
+	ex(f.final, false)
+	var r map[string]value
+	for n, c := range count {
+		if c == 1 && !disq[n] && !notConst[n] {
+			if r == nil {
+				r = map[string]value{}
+			}
+			r[n] = val[n]
+		}
+	}
+	return r
+}
+
+// staticCond evaluates a condition whose operands are constants or final
+// constants; known is false if it is not a compile-time constant (or the
+// propagation pass does not run, or the comparison is not between numbers /
+// strings of the same kind).
+func staticCond(c *eCmp, finals map[string]value) (v, known bool) {
+	if finals == nil {
+		return false, false
+	}
+	operand := func(e expr) (value, bool) {
+		if x, ok := e.(*eVar); ok {
+			fv, ok := finals[x.name]
+			return fv, ok
+		}
+		return constOf(e)
+	}
+	l, ok1 := operand(c.l)
+	r, ok2 := operand(c.r)
+	if !ok1 || !ok2 {
+		return false, false
+	}
+	if _, isFn := l.(*vFunc); isFn {
+		return false, false
+	}
+	if _, isFn := r.(*vFunc); isFn {
+		return false, false
+	}
+	li, lint := l.(vInt)
+	ri, rint := r.(vInt)
+	switch c.op {
+	case "is", "isnt":
+		eq := false
+		if lint && rint {
+			eq = li == ri
+		} else if !lint && !rint {
+			eq = l.(*vStr).s == r.(*vStr).s
+		}
+		return eq == (c.op == "is"), true
+	}
+	if !lint || !rint {
+		return false, false
+	}
+	switch c.op {
+	case "<":
+		return li < ri, true
+	case "<=":
+		return li <= ri, true
+	case ">":
+		return li > ri, true
+	case ">=":
+		return li >= ri, true
+	}
+	return false, false
+}
+
+// sharingSignature describes which storage every name of every scope denotes.
+func sharingSignature(root *scope) string {
+	var sb strings.Builder
+	for _, s := range allScopes(root) {
+		if !s.live {
+			continue
+		}
+		var names []string
+		for n := range s.mentions {
+			names = append(names, n)
+		}
+		sort.Strings(names)
+		for _, n := range names {
+			o := s.resolve(n)
+			fmt.Fprintf(&sb, "%d.%s>%d,%v;", s.id, n, o.id, s.root.shared[bkey{o, n}])
+		}
+	}
+	return sb.String()
+}
+
+// deadBranchChangesSharing: would removing the compile-time-dead `if` branches
+// change which variables are shared (or remove a scope that shares)?
+func deadBranchChangesSharing(root *scope) bool {
+	// only names that survive are compared: restrict the textual signature to
+	// the scopes and names that still exist after the removal
+	for _, s := range allScopes(root) {
+		s.live = false
+	}
+	skipDeadBranches = true
+	analyze(root)
+	after := map[string]bool{}
+	for _, part := range strings.Split(sharingSignature(root), ";") {
+		after[part] = true
+	}
+	skipDeadBranches = false
+	analyze(root)
+	before := map[string]bool{}
+	for _, part := range strings.Split(sharingSignature(root), ";") {
+		before[part] = true
+	}
+	for part := range after {
+		if !before[part] {
+			return true
+		}
+	}
+	return false
 }
